@@ -119,6 +119,7 @@ def candidates(tier, seed):
     specs += [(s, False) for s in sh[::97]]
     oc = specgen.f_occ("quick", seed)
     specs += [(s, False) for s in oc[::61]]
+    specs += [(s, False) for s in oc if (s.get("tags") or {}).get("core")]
     af = specgen.f_affine("quick", seed)
     specs += [(s, False) for s in af[::23]]
     specs += [(s, False) for s in af if (s.get("tags") or {}).get("legal")]
